@@ -1,4 +1,5 @@
-\* Trace validation: the recorded history of real binaries (trace.ndjson next to
+\* Trace validation: the recorded history of real binaries - membership changes,
+\* late joiners and their InstallSnapshot included - (trace.ndjson next to
 \* the spec) must be a behaviour of ClusterTrace, and every predicate below is
 \* evaluated on the recorded states. Run with -workers 1. A deadlock = the
 \* recorded streams cannot be merged (the trace is not explained by the spec).
@@ -16,6 +17,8 @@ INVARIANTS
   FinalInSenderOrder
   FinalsEqual
   ResumedIsPrefixOfFinal
+  StaleIsPrefix
+  StatesEqual
   Stats
 ALIAS Alias
 CHECK_DEADLOCK TRUE
